@@ -18,7 +18,11 @@ def streams(rng, tier):
         nb = gen.neighbours(rng, V) + [V]
         c = rng.choice(nb)
         k = rng.random()
-        if k < 0.35: c2 = gen.V(c.epoch, c.release + (0,) * rng.randrange(0, 3), c.pre, c.post, c.dev, c.local)       # equal
+        if k < 0.35:                                                                                                   # equal: zeros appended or stripped
+            rel = c.release + (0,) * rng.randrange(0, 3)
+            if rng.random() < 0.5:
+                while len(rel) > 1 and rel[-1] == 0: rel = rel[:-1]
+            c2 = gen.V(c.epoch, rel, c.pre, c.post, c.dev, c.local)
         elif k < 0.6: c2 = gen.fix_local(gen.V(c.epoch, c.release, c.pre, c.post, c.dev, (rng.choice(gen.LOCAL_SEGS),)))   # local added
         else: c2 = rng.choice(nb)
         out.append(Case("laws", "law.sp.pair", [vtxt, gen.spell(rng, c, ws=False), gen.spell(rng, c2, ws=False)], kind="law"))
